@@ -5,6 +5,7 @@
 (* separators) under a fixed set of ancestors.  What is retained must be       *)
 (* bounded independently of k: since the records of a case are identical the   *)
 (* bound is simply the largest size seen during the first 8 deliveries.        *)
+(* Then the live heap at two points of a longer stream (Heap).                  *)
 EXTENDS Integers, Sequences, TLC, Json, IOUtils
 
 VARIABLES l, bound, lastk
@@ -20,7 +21,14 @@ Size ==
   /\ IF Ev.k <= 8 THEN bound' = (IF Ev.size > bound THEN Ev.size ELSE bound)
      ELSE Ev.size <= bound /\ UNCHANGED bound
 End == IsEvent("end") /\ Ev.delivered >= lastk /\ lastk >= 100 /\ UNCHANGED <<bound, lastk>>     \* the case really streamed many records
-Next == Start \/ Size \/ End
+\* what the Transform retains besides that tree (reader buffers, caches): the live heap after a collection, at two points
+\* of a long stream of identical records; it may not grow by more than a megabyte unless that is less than 8 bytes per
+\* record delivered in between (noise of the allocator)
+Heap ==
+  /\ IsEvent("heap")
+  /\ (Ev.live2 - Ev.live <= 1048576 \/ Ev.live2 - Ev.live <= 8 * (Ev.at2 - Ev.at))
+  /\ UNCHANGED <<bound, lastk>>
+Next == Start \/ Size \/ End \/ Heap
 Spec == Init /\ [][Next]_<<l, bound, lastk>>
 TraceAccepted == TLCGet("stats").diameter - 1 = Len(Trace)
 =============================================================================
